@@ -25,9 +25,12 @@ def gen_script(rnd, tier):
     def members():
         at = []
         for nm in NAMES:
-            if rnd.random() < 0.35:
+            r = rnd.random()
+            if r < 0.35:
                 did[0] += 1
                 at.append("%s:%d" % (nm, did[0]))
+            elif r < 0.45:
+                at.append("%s:R" % nm)            # re-exported from the bases (`x = Base["x"]`): a direct definition of the same description
         tg = ["%s:%d" % (t, rnd.choice([0, 0, 1, 2, 3, 999])) for t in TAGS if rnd.random() < 0.35]
         iv = []
         for _ in range(rnd.choice([0, 0, 1, 1, 2])):
@@ -155,7 +158,23 @@ def oracle(chk, lines, outs):
         if f[0] == "iface":
             k = int(f[1])
             ib[k] = [int(x) for x in lst(f[2])] or [0]
-            direct[k] = dict((e.split(":")[0], int(e.split(":")[1])) for e in lst(f[3]))
+            direct[k] = {}
+            for e in lst(f[3]):
+                nm_, d_ = e.split(":")
+                if d_ == "R":
+                    # re-exported: what the bases resolve the name to at this moment, as a direct definition of interface k
+                    ib_tmp = dict(ib)
+                    ib_tmp[-1] = ib[k]
+                    want_ = None
+                    for j in (c03.cpython_mirror_mro(ib_tmp, -1) or [])[1:]:
+                        if nm_ in direct[j]:
+                            want_ = direct[j][nm_]
+                            break
+                    if want_ is not None:
+                        direct[k][nm_] = want_
+                        chk.count("re_exported_descriptions")
+                else:
+                    direct[k][nm_] = int(d_)
             tags[k] = dict((e.split(":")[0], int(e.split(":")[1])) for e in lst(f[4]))
             invs[k] = [(int(e.split(":")[0]), e.split(":")[1] == "1") for e in lst(f[5])]
         elif f[0] == "watch":
